@@ -42,7 +42,7 @@ def model(tier):
         out["transitions"] += r["generated"]
         out["runs"].append({"endpoints": eps, "history_length": hist, "states": r["distinct"]})
     devs = {}
-    for d in ("ContactsBeforeKey", "EabReRegisterSkipsContacts", "KeyHashSavedWithContacts", "ReRegisterClaimsContacts"):
+    for d in ("KeyTypeEditIgnored", "ContactsBeforeKey", "EabReRegisterSkipsContacts", "KeyHashSavedWithContacts", "ReRegisterClaimsContacts"):
         r = tlc.model_check("Account", MC_CFG % (tlc.tla_set(LABELS), '{"%s"}' % d, '"A","B"', 6), "C11_dev", workers=4, timeout=600)
         devs[d] = bool(r["violated"])
         if not r["violated"]:
@@ -142,6 +142,8 @@ def histories(tier, seed):
         [("renew", "A"), ("both", ["refused@example.org"], "ecdsa_p384"), ("refuse", "A", "invalidContact"), ("renew", "A"), ("renew", "A"), ("restart",), ("renew", "A")],
         [("renew", "A"), ("renew", "B"), ("both", c2, "rsa2048"), ("refuse", "B", "unsupportedContact"), ("renew", "B"), ("restart",), ("renew", "B"), ("renew", "A")],
         [("renew", "A"), ("contacts", c2), ("refuse", "A", "invalidContact"), ("renew", "A"), ("key", "ed25519"), ("renew", "A")],
+        # key types that share a signature algorithm
+        [("key", "rsa2048"), ("renew", "A"), ("key", "rsa4096"), ("restart",), ("renew", "A"), ("both", c2, "rsa2048"), ("renew", "A")],
         # binding and contacts change together; the contacts update that follows the new registration is refused once
         [("renew", "A"), ("contacts", c2), ("eab", "kidA"), ("refuse", "A", "invalidContact"), ("renew", "A"), ("renew", "A"), ("restart",), ("renew", "A")],
     ]
@@ -192,6 +194,7 @@ def image(d):
 
 def account_layer(x):
     out = [{"e": "Reset"}]
+    ktc = "none"   # type of the current key in the last image seen, in the configuration's spelling
     cert_ep = {"cA_ecdsa-p256": "A", "cB_ecdsa-p256": "B", "cC_ecdsa-p256": "C"}
     for e in x["events"]:
         src, ev = e.get("src"), e.get("ev")
@@ -201,14 +204,13 @@ def account_layer(x):
             elif ev == "CorruptExit":
                 out.append({"e": "CorruptExit", "rc": e["rc"], "unchanged": e["unchanged"], "requests": e["requests"], "hung": e["hung"]})
         elif src == "acmed":
-            if ev == "AccountSave" and e.get("name") == "acc1":
-                out.append({"e": "Saved", "img": image(e)})
-            elif ev == "AccountLoaded" and e.get("name") == "acc1":
-                out.append({"e": "Loaded", "img": image(e)})
+            if ev in ("AccountSave", "AccountLoaded") and e.get("name") == "acc1":
+                ktc = e["current_key"]["key_type"].replace("-", "_")
+                out.append({"e": "Saved" if ev == "AccountSave" else "Loaded", "img": image(e)})
             elif ev == "AttemptStart" and e.get("cert") in cert_ep:
                 out.append({"e": "RenewStart", "ep": cert_ep[e["cert"]]})
             elif ev == "AttemptEnd" and e.get("cert") in cert_ep:
-                out.append({"e": "RenewEnd", "ep": cert_ep[e["cert"]], "ok": bool(e["is_success"])})
+                out.append({"e": "RenewEnd", "ep": cert_ep[e["cert"]], "ok": bool(e["is_success"]), "ktc": ktc})
         elif src == "ca":
             if ev == "CaForget":
                 out.append({"e": "CaForget", "ep": e["ep"]})
